@@ -103,8 +103,12 @@ def extract_uncache_after(cache_control: str) -> timedelta:
     """Get uncache after from cache control header."""
     match = CACHE_CONTROL_RE.search(cache_control)
     if match:
-        max_age = int(match[1])
-        return timedelta(seconds=max_age)
+        try:
+            max_age = int(match[1])
+            return timedelta(seconds=max_age)
+        except (OverflowError, ValueError):
+            # Absurdly large max-age: valid as long as we can represent.
+            return timedelta.max
     return DEFAULT_MAX_AGE
 
 
@@ -112,7 +116,10 @@ def extract_valid_to(headers: CaseInsensitiveDict) -> datetime:
     """Extract/create valid to."""
     uncache_after = extract_uncache_after(headers.get_lower("cache-control", ""))
     timestamp: datetime = headers.get_lower("_timestamp")
-    return timestamp + uncache_after
+    try:
+        return timestamp + uncache_after
+    except OverflowError:
+        return datetime.max
 
 
 class SsdpDevice:
